@@ -417,7 +417,7 @@ impl Scenario for ValidatorScn {
     }
 }
 
-const QUERIES: [(&str, Rtype, &str); 35] = [
+const QUERIES: [(&str, Rtype, &str); 36] = [
     ("www.zone.tld.", Rtype::A, "positive"),
     ("www.zone.tld.", Rtype::TXT, "positive"),
     ("zone.tld.", Rtype::SOA, "positive"),
@@ -451,6 +451,9 @@ const QUERIES: [(&str, Rtype, &str); 35] = [
     ("www.z2.ent.tld.", Rtype::A, "positive-deep"),
     ("nope.z2.ent.tld.", Rtype::A, "nxdomain"),
     ("host.ed.tld.", Rtype::A, "insecure"),
+    // An unsigned DNAME in the insecure zone that leads into the secure one:
+    // the signed data at the end does not make the answer secure.
+    ("www.dn.unsigned.tld.", Rtype::A, "insecure-dname"),
     ("plain.tld.", Rtype::TXT, "positive-tld"),
     ("other.", Rtype::TXT, "positive-root"),
 ];
@@ -524,7 +527,8 @@ async fn run(_tier: Tier) {
     let clock_plan = if adversarial { sim::draw("clock.plan", 16) } else { 0 };
     // The last second at which the chain to `name` is valid.
     let eff_expiration = |name: &str| -> u64 {
-        if name.to_ascii_lowercase().ends_with("zone.tld.") {
+        // (names below dn.unsigned.tld. are redirected into zone.tld.)
+        if name.to_ascii_lowercase().ends_with("zone.tld.") || name.to_ascii_lowercase().ends_with("dn.unsigned.tld.") {
             w.ds_expiration.min(w.expiration) as u64
         } else {
             w.expiration as u64
